@@ -631,6 +631,7 @@ class PSFPhotometry(ModelImageMixin):
             finite_mask |= mask
             if np.any(finite_mask & ~mask):
                 warn_nonfinite()
+            mask = finite_mask  # input mask plus non-finite pixels
         else:
             mask = finite_mask
             if np.any(finite_mask):
